@@ -14,7 +14,13 @@ def check(chk, thorough=False):
     chk.run('C03.a', 'R-WHO+R-FLOW', 'one AAD construction for both directions: every COSE message built for a BIB gets external_aad from get_external_aad(); the verifier re-attaches the target data and sets the same AAD before returning', lambda ob: c03a(tree, ob, 'apply_bib'), floor=5)
     chk.run('C03.b', 'R-FLOW', 'the AAD depends on the security source, the canonical scope map, per-block metadata / data under their scope bits, the primary block, and the protected parameters', lambda ob: c03b(tree, ob), floor=7)
     chk.run('C03.c', 'R-FLOW', 'verdict flow is fail-closed: success only from a pycose verify result, exceptions and malformed result arrays fail, a later success never erases an earlier failure', lambda ob: c03c(tree, ob, 'bib'), floor=8)
+    chk.run('C03.e', 'R-TRUTH', 'the AAD is rebuilt from decoded blocks, so decoding must preserve every bit of flags and values (= C02.e)', lambda ob: _c02e(tree, ob), floor=20)
     chk.run('C03.d', 'R-ORDER', 'a verification key comes only from the symmetric store by kid, or from a chain that was validated and whose node id matched; every other path raises', lambda ob: c03d(tree, ob), floor=4)
+
+
+def _c02e(tree, ob):
+    from .c02 import c02e
+    return c02e(tree, ob)
 
 
 def _msg_ctors(func):
@@ -48,8 +54,22 @@ def c03a(tree, ob, meth):
             ob.violate(SEC, fv.qual, src(c)[:60], 'the AAD is not computed for the current target block', c)
         else:
             ob.site(SEC, c, '{} in {}: payload = target data, AAD = get_external_aad() for this target'.format(call_name(c), meth))
+    # targets and results are parallel arrays: both must follow the order of the same operation list
+    blocks = [c for c in calls_in(fv.func) if (call_name(c) or '') in ('BlockIntegrityBlock', 'BlockConfidentialityBlock')]
+    for b in blocks:
+        tg = kwarg(b, 'targets')
+        loops = [n for n in walk_local(fv.func) if isinstance(n, ast.For) and any(pm('target_result.append($r)', c) is not None for c in calls_in(n))]
+        if tg is None or not loops:
+            raise AnalysisError('{}: cannot find the targets / results construction in {}'.format(ob.oid, meth))
+        seq = src(loops[0].iter)
+        var = src(loops[0].target)
+        if pm('[{v}.tgt_blk_num for {v} in {s}]'.format(v=var, s=seq), tg) is None and pm('[$x.tgt_blk_num for $x in {}]'.format(seq), tg) is None:
+            ob.violate(SEC, fv.qual, 'targets=' + src(tg), 'the target list is not built in the order of the operation list that the results follow: '
+                       'when they differ each target is paired with another target\'s result and an unaltered bundle fails verification', b)
+        else:
+            ob.site(SEC, b, meth + ': targets and results follow the same operation order')
     # one AAD builder
-    builders = [(q, f) for (r, q, f) in tree.all_functions([SEC]) if 'external_aad' in f.name or f.name.endswith('_aad')]
+    builders =[(q, f) for (r, q, f) in tree.all_functions([SEC]) if 'external_aad' in f.name or f.name.endswith('_aad')]
     if len(builders) != 1:
         ob.violate(SEC, 'CoseSecOpCtx', 'get_external_aad', 'more than one AAD construction exists: {}'.format([q for (q, f) in builders]), builders[0][1] if builders else None)
     # verifier side
@@ -115,7 +135,9 @@ def c03b(tree, ob):
     want = {
         'primary': lambda st: pm('bytes(blk)', st.value) is not None and fv.has(st, 'is_primary', True) and fv.has(st, 'flags & CoseContext.AadScopeFlag.METADATA', True),
         'metadata': lambda st: "blk.build()[:3]" in src(st.value) and fv.has(st, 'is_primary', False) and fv.has(st, 'flags & CoseContext.AadScopeFlag.METADATA', True),
-        'btsd': lambda st: pm('cbor2.dumps(bytes(blk.btsd))', st.value) is not None and fv.has(st, 'is_primary', False) and fv.has(st, 'flags & CoseContext.AadScopeFlag.BTSD', True),
+        # the data contribution depends on the BTSD bit only: an entry may bind data without metadata
+        'btsd': lambda st: pm('cbor2.dumps(bytes(blk.btsd))', st.value) is not None and fv.has(st, 'is_primary', False) and fv.has(st, 'flags & CoseContext.AadScopeFlag.BTSD', True)
+        and not any('AadScopeFlag.METADATA' in t for (t, p) in (fv.facts(st) or ())),
         'protected': lambda st: pm('cbor2.dumps(self.addl_protected)', st.value) is not None and enclosing(st, (ast.For,)) is None,
     }
     text = {'primary': 'whole primary block under METADATA', 'metadata': 'type/number/flags of a scoped block under METADATA',
